@@ -25,6 +25,8 @@ macro_rules! with_n {
             13 => $f::<_, 13>($($args),*),
             16 => $f::<_, 16>($($args),*),
             64 => $f::<_, 64>($($args),*),
+            4294967296 => $f::<_, 4294967296>($($args),*),
+            4294967297 => $f::<_, 4294967297>($($args),*),
             _ => unreachable!(),
         }
     };
@@ -117,8 +119,26 @@ fn run_random<T: Clone + std::panic::RefUnwindSafe>(elem: &str, mk: &dyn Fn(usiz
 }
 
 fn run_len<T: Clone + std::panic::RefUnwindSafe>(elem: &str, mk: &dyn Fn(usize) -> T, len: usize, idx: Vec<usize>, ns: &[usize], out: &mut Out) {
+    let v: Vec<T> = (0..len).map(|i| mk(i)).collect();
+    run_vec(elem, v, idx, ns, out)
+}
+
+/// zero-sized elements allow slices longer than isize::MAX elements: lengths around 2^32, 2^63 and usize::MAX
+fn run_zst_huge(out: &mut Out) {
+    for len in [(1usize << 32) + 5, (1 << 63) - 1, 1 << 63, (1 << 63) + 999, usize::MAX - 1, usize::MAX] {
+        let mut v: Vec<()> = Vec::new();
+        // SAFETY: `()` is zero-sized: any length is within the capacity (usize::MAX) and nothing needs initialising
+        unsafe { v.set_len(len) };
+        let mut idx = vec![0usize, 1, len - 1, len, (1 << 63) - 1, 1 << 63, (1 << 63) + 1, (1 << 32), usize::MAX];
+        idx.sort();
+        idx.dedup();
+        run_vec("zst", v, idx, &[1, 5, 64, 4294967296, 4294967297], out);
+    }
+}
+
+fn run_vec<T: Clone + std::panic::RefUnwindSafe>(elem: &str, v: Vec<T>, idx: Vec<usize>, ns: &[usize], out: &mut Out) {
+    let len = v.len();
     {
-        let v: Vec<T> = (0..len).map(|i| mk(i)).collect();
         let s: &[T] = &v;
         for &i in &idx {
             out.emit(&format!("s.get {} {} {}", elem, len, i), &catch(|| one(s, ks::get(s, i))), &one(s, s.get(i)), true);
@@ -210,6 +230,11 @@ pub fn run(tier: &str, seed: u64, out: &mut Out) {
     run_random::<u8>("u8", &|i| i as u8, cases, &mut rng, out);
     run_random::<()>("zst", &|_| (), cases / 4, &mut rng, out);
     run_random::<[u16; 3]>("u16x3", &|i| [i as u16; 3], cases / 4, &mut rng, out);
+    run_zst_huge(out);
+    // array/chunk sizes beyond 2^32 on small slices
+    for len in [0usize, 1, 3] {
+        run_len::<u8>("u8", &|i| i as u8, len, vec![0, len], &[4294967296, 4294967297], out);
+    }
     run_type::<u8>("u8", &|i| i as u8, max_len, out);
     run_type::<()>("zst", &|_| (), max_len, out);
     run_type::<String>("string", &|i| format!("s{}", i), max_len.min(10), out);
